@@ -106,7 +106,7 @@ pub fn gen_plan(rng: &mut Rng) -> Plan {
         session_cookie: None,
         auth_cookie: None,
         enc: EncKind::Honest,
-        locale: rng.pick(&["en_us", "de_DE", "de", "xx_YY", "", "a_b_c"]).to_string(),
+        locale: rng.pick(&["en_us", "de_DE", "de", "xx_YY", "", "a_b_c", "é_FR", "日本_JP", "ü", "_x", "x_", "a__b"]).to_string(),
         pre_info: vec![],
         routing: vec![Step::AdapterDone, Step::AdapterDone, Step::AdapterDone],
         ping: rng.next(),
